@@ -34,11 +34,12 @@ func c19DocsAssets(c *Ctx, binEnv string, rounds int, raceBase string, done chan
 		return
 	}
 	defer srv.stop()
-	srv.client = &http.Client{Timeout: 90 * time.Second, Transport: &http.Transport{MaxConnsPerHost: 40, MaxIdleConnsPerHost: 40, IdleConnTimeout: 20 * time.Second}}
-	defer srv.client.CloseIdleConnections()
 	paths := []string{"/docs/swagger-ui-bundle.js", "/docs/swagger-ui.css", "/docs/swagger-ui-standalone-preset.js", "/docs/index.html", "/docs/doc.json", "/docs/favicon-32x32.png", "/docs/swagger-initializer.js"}
 	encs := []string{"identity", "gzip", "br", "zstd", "deflate", "gzip, br, zstd", "zstd, gzip;q=0.5", "br;q=1.0, gzip;q=0.8, *;q=0.1"}
-	fetch := func(path, accept string) httpResult {
+	newClient := func() *http.Client {
+		return &http.Client{Timeout: 90 * time.Second, Transport: &http.Transport{MaxConnsPerHost: 40, MaxIdleConnsPerHost: 40, IdleConnTimeout: 20 * time.Second}}
+	}
+	fetchFrom := func(srv *server, path, accept string) httpResult {
 		ctx, cancel := context.WithTimeout(context.Background(), 60*time.Second)
 		defer cancel()
 		for busy := 0; ; busy++ {
@@ -60,6 +61,9 @@ func c19DocsAssets(c *Ctx, binEnv string, rounds int, raceBase string, done chan
 			return httpResult{Status: resp.StatusCode, Header: resp.Header, Body: b, Err: rerr}
 		}
 	}
+	fetch := func(path, accept string) httpResult { return fetchFrom(srv, path, accept) }
+	srv.client = newClient()
+	defer srv.client.CloseIdleConnections()
 	ref := map[string][]byte{}
 	var live []string
 	for _, p := range paths {
@@ -121,6 +125,107 @@ func c19DocsAssets(c *Ctx, binEnv string, rounds int, raceBase string, done chan
 	var mu sync.Mutex
 	verdicts := map[verdictKey]string{} // identical (path, coding, body) are decoded once
 	const clients = 32
+	judge := func(p, accept string, res httpResult, cas map[string]any, others int) {
+		r.Eval(1)
+		r.Count("docs_asset_responses", 1)
+		if res.Err != nil {
+			r.Violate("C19|docs-asset|incomplete-response|", "a documentation asset requested together with "+fmt.Sprint(others)+" other asset requests is not answered with a complete response", "none", cas, "a complete response", res.Err.Error())
+			return
+		}
+		if res.Status != 200 {
+			r.Violate("C19|docs-asset|status|"+fmt.Sprint(res.Status), "a documentation asset that is served when asked for alone is refused when requested concurrently", "none", cas, "200", fmt.Sprintf("%d %.200q", res.Status, res.Body))
+			return
+		}
+		ce := res.Header.Get("Content-Encoding")
+		k := verdictKey{p, ce, [2]uint64{fnv64(res.Body), uint64(len(res.Body))}}
+		mu.Lock()
+		v, seen := verdicts[k]
+		mu.Unlock()
+		if !seen {
+			out, judged, derr := decode(ce, res.Body)
+			switch {
+			case !judged:
+				v = "unjudged"
+			case derr != nil:
+				v = "does not decode: " + derr.Error()
+			case !bytes.Equal(out, ref[p]):
+				at := 0
+				for at < len(out) && at < len(ref[p]) && out[at] == ref[p][at] {
+					at++
+				}
+				v = fmt.Sprintf("decodes to %d bytes that differ from the %d identity bytes at offset %d", len(out), len(ref[p]), at)
+			default:
+				v = "ok"
+			}
+			mu.Lock()
+			verdicts[k] = v
+			mu.Unlock()
+		}
+		coding := ce
+		if coding == "" {
+			coding = "identity"
+		}
+		switch v {
+		case "ok":
+			r.Count("docs_asset_decoded_equal:"+coding, 1)
+			r.Nontrivial("docs|" + p + "|" + coding + "|" + accept)
+		case "unjudged":
+			r.Count("docs_asset_not_judged:"+coding, 1)
+		default:
+			r.Violate("C19|docs-asset|body-corrupt|"+coding, "the body of a documentation asset, decoded by the content coding the response names, is not the file", "none", cas,
+				"the bytes served for Accept-Encoding: identity", fmt.Sprintf("Content-Encoding %q, %d body bytes: %s", ce, len(res.Body), v))
+		}
+	}
+	// beside the rounds: servers started for the purpose, so that every (file, coding) pair is asked for the first time
+	// - the moment in which the file server builds its compressed copy - by one client alone on one server and by 40
+	// clients at the same moment on the next
+	freshDone := make(chan struct{})
+	go func() {
+		defer close(freshDone)
+		frng := c.RNG.Fork(7300)
+		t0 := time.Now()
+		defer func() { r.Extra["docs_asset_fresh_server_phase_seconds:"+binEnv] = int(time.Since(t0).Seconds()) }()
+		for f := 0; f < 12*rounds; f++ {
+			fs, err := startServer(c, binEnv, env...)
+			if err != nil {
+				r.Inconclusive("documentation assets: a fresh server could not be started: " + err.Error())
+				return
+			}
+			fs.client = newClient()
+			type pe struct{ p, e string }
+			var combos []pe
+			for _, p := range live {
+				for _, e := range []string{"zstd", "br", "gzip", "zstd, br, gzip"} {
+					combos = append(combos, pe{p, e})
+				}
+			}
+			for i := len(combos) - 1; i > 0; i-- {
+				j := frng.Intn(i + 1)
+				combos[i], combos[j] = combos[j], combos[i]
+			}
+			for _, k := range combos {
+				if f%2 == 0 {
+					// every other fresh server is asked by one client only, one request after the other: the copy is
+					// then built without any concurrency at all
+					res := fetchFrom(fs, k.p, k.e)
+					judge(k.p, k.e, res, map[string]any{"path": k.p, "accept_encoding": k.e, "fresh_server": f, "concurrent_clients_same_request": 1}, 0)
+					r.Count("docs_asset_first_requests_alone", 1)
+					continue
+				}
+				monParallel(40, 40, func(i int) {
+					res := fetchFrom(fs, k.p, k.e)
+					judge(k.p, k.e, res, map[string]any{"path": k.p, "accept_encoding": k.e, "fresh_server": f, "concurrent_clients_same_request": 40}, 39)
+				})
+				r.Count("docs_asset_first_request_bursts", 1)
+			}
+			if !fs.alive() {
+				r.Violate("C19|server|died|docs-assets", "the server process exited while documentation assets were requested concurrently", "none", nil, "alive", "exited; see server log")
+			}
+			fs.client.CloseIdleConnections()
+			fs.stop()
+		}
+	}()
+	defer func() { <-freshDone }()
 	for round := 0; round < rounds; round++ {
 		if round > 0 {
 			// the file server keeps compressed copies for 10 s; the next round must find them gone
@@ -133,56 +238,7 @@ func c19DocsAssets(c *Ctx, binEnv string, rounds int, raceBase string, done chan
 			p := live[i%len(live)]
 			accept := encs[(i/len(live)+round)%len(encs)]
 			res := fetch(p, accept)
-			r.Eval(1)
-			r.Count("docs_asset_responses", 1)
-			cas := map[string]any{"path": p, "accept_encoding": accept, "round": round, "concurrent_clients": len(live) * clients}
-			if res.Err != nil {
-				r.Violate("C19|docs-asset|incomplete-response|", "a documentation asset requested together with "+fmt.Sprint(len(live)*clients-1)+" other asset requests is not answered with a complete response", "none", cas, "a complete response", res.Err.Error())
-				return
-			}
-			if res.Status != 200 {
-				r.Violate("C19|docs-asset|status|"+fmt.Sprint(res.Status), "a documentation asset that is served when asked for alone is refused when requested concurrently", "none", cas, "200", fmt.Sprintf("%d %.200q", res.Status, res.Body))
-				return
-			}
-			ce := res.Header.Get("Content-Encoding")
-			k := verdictKey{p, ce, [2]uint64{fnv64(res.Body), uint64(len(res.Body))}}
-			mu.Lock()
-			v, seen := verdicts[k]
-			mu.Unlock()
-			if !seen {
-				out, judged, derr := decode(ce, res.Body)
-				switch {
-				case !judged:
-					v = "unjudged"
-				case derr != nil:
-					v = "does not decode: " + derr.Error()
-				case !bytes.Equal(out, ref[p]):
-					at := 0
-					for at < len(out) && at < len(ref[p]) && out[at] == ref[p][at] {
-						at++
-					}
-					v = fmt.Sprintf("decodes to %d bytes that differ from the %d identity bytes at offset %d", len(out), len(ref[p]), at)
-				default:
-					v = "ok"
-				}
-				mu.Lock()
-				verdicts[k] = v
-				mu.Unlock()
-			}
-			coding := ce
-			if coding == "" {
-				coding = "identity"
-			}
-			switch v {
-			case "ok":
-				r.Count("docs_asset_decoded_equal:"+coding, 1)
-				r.Nontrivial("docs|" + p + "|" + coding + "|" + accept)
-			case "unjudged":
-				r.Count("docs_asset_not_judged:"+coding, 1)
-			default:
-				r.Violate("C19|docs-asset|body-corrupt|"+coding, "the body of a documentation asset, decoded by the content coding the response names, is not the file", "none", cas,
-					"the bytes served for Accept-Encoding: identity", fmt.Sprintf("Content-Encoding %q, %d body bytes: %s", ce, len(res.Body), v))
-			}
+			judge(p, accept, res, map[string]any{"path": p, "accept_encoding": accept, "round": round, "concurrent_clients": len(live) * clients}, len(live)*clients-1)
 		})
 		// byte ranges of the same files, again many at once: a 206 must carry exactly the bytes its own Content-Range
 		// names, a 200 the whole file, anything else must be a refusal (4xx)
